@@ -9,7 +9,7 @@ witness guided: it keeps a model of the path condition, follows the side the mod
 asks the solver whether the other side is feasible (queued as a decision prefix, explored later
 by re-execution).  Nothing here imports Geometry3D: the shims live in symgeo.shims.
 """
-import time, os, itertools
+import time, os, itertools, threading
 from fractions import Fraction
 import builtins, math as _math
 import z3
@@ -233,34 +233,61 @@ class Engine:
         st = self.stats
         st.queries += 1
         t = time.time()
-        r = self.solver.check(*extra)
-        res = str(r)
-        if res == 'sat':
-            self._last_model = self.solver.model()
-        elif res == 'unknown':
-            res = self._fallback(extra)
-        st.solver_s += time.time() - t
+        res = 'unknown'
+        if Engine.prefer_nlsat < 2:
+            r = self.solver.check(*extra)
+            res = str(r)
+            if res == 'sat':
+                self._last_model = self.solver.model()
+            elif res == 'unknown':
+                Engine.prefer_nlsat += 1
+                res = self._fallback(extra)
+        else:
+            res = self._fallback(extra, first=True)
+        dt = time.time() - t
+        st.solver_s += dt
+        if dt > 2 and os.environ.get('SYMGEO_DEBUG'):
+            print('   slow query %.1fs -> %s (pc=%d, nlsat=%d cvc5=%d)' % (dt, res, len(self.pc), st.fallback_nlsat, st.fallback_cvc5), flush=True)
         setattr(st, res, getattr(st, res) + 1)
         return res
 
-    def _fallback(self, extra):
-        st = self.stats
-        st.fallback_nlsat += 1
+    prefer_nlsat = 0      # process-wide: after two 'unknown' from the incremental core, nlsat goes first
+
+    def _nlsat(self, extra, timeout_ms):
         s = z3.Tactic('qfnra-nlsat').solver()
-        s.set('timeout', self.slow_timeout_ms)
+        s.set('timeout', timeout_ms)
         for c in self.pc:
             s.add(c)
         for c in extra:
             s.add(c)
+        timer = threading.Timer(timeout_ms / 1000.0 + 1.0, z3.main_ctx().interrupt)
+        timer.start()
         try:
             r = str(s.check())
         except z3.Z3Exception:
             r = 'unknown'
+        finally:
+            timer.cancel()
         if r == 'sat':
-            self._last_model = s.model()
+            try:
+                self._last_model = s.model()
+            except z3.Z3Exception:
+                r = 'unknown'
+        return r
+
+    def _fallback(self, extra, first=False):
+        st = self.stats
+        st.fallback_nlsat += 1
+        r = self._nlsat(extra, self.slow_timeout_ms)
+        if r in ('sat', 'unsat'):
             return r
-        if r == 'unsat':
-            return r
+        if first:
+            rr = self.solver.check(*extra)
+            if str(rr) == 'sat':
+                self._last_model = self.solver.model()
+                return 'sat'
+            if str(rr) == 'unsat':
+                return 'unsat'
         if self.use_cvc5:
             st.fallback_cvc5 += 1
             r = _cvc5_check(self.pc + list(extra), self.slow_timeout_ms)
